@@ -173,6 +173,19 @@ CLAIMED.update({
             "DESIGN.md §3 C16", "ownership/lock-discipline/close-owner rules over go/ssa with goroutine-closure capture sets"),
 })
 
+CLAIMED.update({
+    "C15": ("other",
+            "Decides on all paths of the controller: the iteration counter starts at 1, grows by exactly 1 on its single back edge and is the "
+            "depth searched and reported, the reported PV taking score/moves/nodes from that same call; every completed iteration is stored "
+            "under the mutex before it is sent and before (every) first-iteration signal, and a failed or halted iteration reaches none of "
+            "these; Halt = wait for the signal, close quit, lock, read - in that order - and quit is closed nowhere else; the self-termination "
+            "tests (depth == limit, mate distance <= depth on the score just searched) sit after publication; Analyze supplies the engine's "
+            "default depth; TimeControl.Limits, evaluated abstractly per colour and movestogo case, yields hard = k*(R/D) with D >= k on the "
+            "path's bounds, hence <= the remaining time of the side to move, and the timer is armed with it and halts the same handle. "
+            "Equality of reported scores with fixed-depth searches and real-time behaviour are not decided.",
+            "DESIGN.md §3 C15", "induction-variable and dominance (ordering) rules over the controller's CFG; abstract interpretation of the time-control arithmetic with zone bounds"),
+})
+
 NOT_APPLICABLE = {
     "C11": "Transparency of the transposition table is a numeric equality between two complete searches over all positions x depths x table sizes x search sequences; no sound static abstraction in reach bounds it. Its shape-visible clauses are decided under C12 (no store after cancellation, exact bound only after a full loop), C04 (root exits) and C17 (slot discipline).",
 }
